@@ -386,6 +386,16 @@ func (w *World) mutableGlobal(gl *ssa.Global) bool {
 	return w.mutGlobals[gl]
 }
 
+// ecosystemIface: the generic interface type univers.Ecosystem (used only for typing contract expressions).
+func (w *World) ecosystemIface() types.Type {
+	if p := w.byShort["univers"]; p != nil {
+		if o := p.Pkg.Scope().Lookup("Ecosystem"); o != nil {
+			return o.Type()
+		}
+	}
+	return types.NewInterfaceType(nil, nil)
+}
+
 // repoFunctions returns all repo functions with bodies, sorted by key.
 func (w *World) repoFunctions() []*ssa.Function { return w.allFuncs }
 
